@@ -232,7 +232,7 @@ def main(tier):
          "event mode: the server reacts completely to one packet / one pipelined burst before the next",
          "failed attempts counted as non-partial USERAUTH_FAILURE messages sent by the server"])
     depth = 13 if tier == "quick" else 14
-    out, acc = A.pbfs(run, make_enabled(tier), canon, judge, depth, chunk=8)
+    out, acc = A.pbfs(run, make_enabled(tier), canon, judge, depth)
     ck.merge(acc)
     ck.acc.states = out.states
     ck.acc.transitions = out.transitions
